@@ -403,6 +403,8 @@ func cmdCase(argv []string) int {
 	unwind := fs.Int("unwind", 80, "unwind bound")
 	out := fs.String("json", "", "write report JSON here")
 	variant := fs.String("variant", "", "source variant")
+	fires := fs.Int("fires", 6, "timer firings per path")
+	arith := fs.Bool("arith", false, "arithmetic-first solving (cvc5)")
 	choices := fs.String("choices", "", "debug: replay this comma separated choice sequence")
 	preempt := fs.Int("preempt", -1, "preemption bound (-1: unbounded with sleep sets)")
 	fs.Parse(argv)
@@ -439,6 +441,8 @@ func cmdCase(argv []string) int {
 	cfg.Solver = *solver
 	cfg.Unwind = *unwind
 	cfg.PreemptBound = *preempt
+	cfg.MaxTimerFires = *fires
+	cfg.ArithFirst = *arith
 	if b := os.Getenv("VERIF_CASE_BUDGET"); b != "" {
 		if sec, err := strconv.Atoi(b); err == nil {
 			cfg.CaseBudget = time.Duration(sec) * time.Second
